@@ -26,7 +26,7 @@ META = {
     "assumptions": ["rates compared exactly with float(printed string)", "a no-op scale_to_test_date (date outside the forecast window) may either keep the previous factor "
                     "(code) or reset to unity (docstring): both accepted", "points inside a round-off band below a face are not probed here (C01/C02)"],
     "deciding": ["lookup:get_rates", "file:magnitudes", "file:total", "history:scaling", "invariant:data=_data*_scale"],
-    "exhaustive_tiers": {"quick": {"scaling histories of length <= 3 over 6 operations": True}, "thorough": {"scaling histories of length <= 4 over 6 operations": True}},
+    "exhaustive_tiers": {"quick": {"scaling histories of length <= 3 over 9 operations (6 scalar, 3 array-valued factors)": True}, "thorough": {"scaling histories of length <= 4 over 9 operations (6 scalar, 3 array-valued factors)": True}},
 }
 MANIFEST = {
     "technique": "invariant on live GriddedDataSet objects (data == _data*_scale, _data digest unchanged) evaluated after every public method + boundary recorder on the loaders and get_rates against a per-row writer model + sequential history checker for scale / scale_to_test_date (exhaustive short histories)",
@@ -35,6 +35,7 @@ MANIFEST = {
 }
 WATCHDOG_S = {"quick": 900, "thorough": 5400}
 OPSET = ["scale(2)", "scale(0.5)", "scale(1)", "std(mid)", "std(before)", "std(after)"]
+ARRAY_OPS = ["scale(percell)", "scale(permag)", "scale(full)"]      # scale() is documented for "int, float, or ndarray"
 
 
 def shards(tier):
@@ -207,7 +208,12 @@ def ex_history(ctx, ops, seed=0):
     ctx.count(1)
     mid = datetime.datetime(2010, 9, 17, tzinfo=UTC)
     for step, op in enumerate(ops):
-        if op.startswith("scale("):
+        if op in ARRAY_OPS:
+            shp = {"percell": (data.shape[0], 1), "permag": (data.shape[1],), "full": data.shape}[op[6:-1]]
+            v = numpy.random.default_rng([seed, 14, step]).uniform(0.2, 3.0, shp)
+            ok, _, tb = ctx.call(fore.scale, v)
+            admissible = [v]
+        elif op.startswith("scale("):
             v = float(op[6:-1])
             ok, _, tb = ctx.call(fore.scale, v)
             admissible = {v}
@@ -218,7 +224,7 @@ def ex_history(ctx, ops, seed=0):
                 fr = (decyear(t + datetime.timedelta(days=1)) - decyear(start)) / (decyear(end) - decyear(start))
                 admissible = {float(fr)}
             else:
-                admissible = admissible | {1.0}
+                admissible = list(admissible) + [1.0]
         if not ok:
             ctx.violate("scaling operation raised", rc, observed=repr(_), tb=tb, tags={"clause": "raised", "op": op})
             return
@@ -227,8 +233,17 @@ def ex_history(ctx, ops, seed=0):
         if not any(numpy.allclose(got, data * a, rtol=1e-9, atol=0) for a in admissible):
             ratio = float(numpy.median(got / data))
             ctx.violate("after a sequence of scale / scale_to_test_date calls data != original x last factor", rc, observed={"ratio": ratio},
-                        expected={"admissible_factors": sorted(admissible)}, tags={"clause": "scaling", "op": op, "step": step,
-                                                                                     "cumulative": bool(step and not any(abs(ratio - a) < 1e-9 for a in admissible))})
+                        expected={"admissible_factors": [a if numpy.ndim(a) == 0 else "array%s" % (numpy.shape(a),) for a in admissible]},
+                        tags={"clause": "scaling", "op": op, "step": step,
+                              "cumulative": bool(step and not any(numpy.ndim(a) == 0 and abs(ratio - a) < 1e-9 for a in admissible))})
+            return
+        tot = fore.sum()
+        if numpy.ndim(tot) != 0:
+            ctx.violate("the forecast's total is not a scalar after scaling", rc, observed=numpy.shape(tot), tags={"clause": "marginals", "op": op})
+            return
+        ok_ec, ec, _tb = ctx.call(lambda: fore.event_count)
+        if not ok_ec or numpy.ndim(ec) != 0 or not close(float(ec), float(numpy.sum(got)), rel=1e-12):
+            ctx.violate("event_count != total of the scaled rates", rc, observed=repr(ec)[:80], expected=float(numpy.sum(got)), tags={"clause": "marginals", "op": op})
             return
         s_ok = close(float(fore.sum()), float(numpy.sum(got)), rel=1e-12) and close(float(numpy.sum(fore.spatial_counts())), float(fore.sum()), rel=1e-12) \
             and close(float(numpy.sum(fore.magnitude_counts())), float(fore.sum()), rel=1e-12)
@@ -324,13 +339,13 @@ def run(ctx):
     thorough = ctx.tier == "thorough"
     ci = 0
     for L in range(1, (4 if thorough else 3) + 1):
-        for ops in itertools.product(OPSET, repeat=L):
+        for ops in itertools.product(OPSET + ARRAY_OPS, repeat=L):
             ci += 1
             if ctx.mine(ci):
                 ex_history(ctx, list(ops), seed=ci % 5)
     for j in range((8000 if thorough else 60) // ctx.nshards):
         r = ctx.rng("c11h", j)
-        ex_history(ctx, [OPSET[int(k)] for k in r.integers(0, 6, int(r.integers(5, 12)))], seed=j)
+        ex_history(ctx, [(OPSET + ARRAY_OPS)[int(k)] for k in r.integers(0, 9, int(r.integers(5, 12)))], seed=j)
     n = (40000 if thorough else 240) // ctx.nshards
     for j in range(n):
         r = ctx.rng("c11", j)
